@@ -434,6 +434,8 @@ func runC11(r *Run, verifDir string) {
 	c.k1SoleSenderCloses()
 	c.k2ReplyBuffered()
 	c.k6Releasable()
+	r.Rule("C11.M10", "the read and write loops tear the connection down on every stream-error exit", 2)
+	c.kLoopErrorExits("C11.M10")
 	c11M4(r)
 	c11M7(r)
 	c11M8(r)
